@@ -1578,6 +1578,8 @@ static std::string genScalarText(Rng& r, char kind, int bits, bool sg) {
     return t;
   } else {
     t = genValue(r);
+    // round four: string targets also see the blanks of the classic locale (\v, \f are NOT stripped by Parser<string>)
+    if (r.coin(1, 4)) return padC(r) + t + padC(r);
     return t;
   }
   // decorate / damage
